@@ -187,7 +187,23 @@ def gen_callcache_consts():
             if name not in clearers and any(re.search(r"\bself\s*\.\s*" + re.escape(c) + r"\s*\(", bd) for c in clearers):
                 clearers.append(name)
     clearers = sorted(set(clearers))
-    clears = "set_global" in clearers and "set_global_by_index" in clearers
+
+    def clears_unconditionally(name, seen=()):
+        """the clear (or the call of a helper that clears unconditionally) is a statement of the function's own block: not
+        inside an `if` / `match` / loop, and not after an early `return` -- it dominates the function's exit, whatever is stored"""
+        bd = bodies.get(name)
+        if bd is None or name in seen:
+            return False
+        cands = [m.start() for m in CLEAR_RE.finditer(bd)]
+        for c in clearers:
+            if c != name and clears_unconditionally(c, seen + (name,)):
+                cands += [m.start() for m in re.finditer(r"\bself\s*\.\s*" + re.escape(c) + r"\s*\(", bd)]
+        for at in cands:
+            depth = bd[:at].count("{") - bd[:at].count("}")
+            if depth == 1 and not re.search(r"\breturn\b", bd[:at]):
+                return True
+        return False
+    clears = clears_unconditionally("set_global") and clears_unconditionally("set_global_by_index")
     # ---- which arm patches a site to which opcode: `| (N << 24)`
     patches = {}
     for n in (O77, O78, O104):
